@@ -36,6 +36,7 @@ type Profile struct {
 	FaultFree   float64         // probability that a run has no faults at all
 	ModSvcCalls float64         // probability that the run calls the module-reserved service (known finding M1)
 	HugeFreq    float64         // probability that a run uses frequencies >= 2^62 (known finding D10)
+	NoForeignImport float64     // probability that an export-and-continue lands on a binary without the foreign module
 	MultiToken  float64         // probability that a run plugs in the multi-token keeper and exchange-rate feed (DESIGN §10.8)
 	PrefixAddrs float64         // probability that a run uses prefix-related non-signing provider addresses
 	Boundary    float64         // probability of boundary-shaped messages per stranger action
@@ -375,7 +376,15 @@ func (g *Gen) oneBlock(active bool) bool {
 	// (an export is worth more while several contexts are alive)
 	if active && g.useExpCont && g.faults["expcont"] && !g.didExpCont && g.block > g.nBlocks/3 && g.chance(map[bool]float64{false: 0.1, true: 0.45}[len(g.x.cur.Ctx) >= 2]) {
 		g.didExpCont = true
-		if !g.emit(Op{K: "expcont"}) {
+		eop := Op{K: "expcont"}
+		if g.useModule && g.mrng.Float64() < g.prof.NoForeignImport {
+			// the new chain's binary does not contain the foreign module: its (paused) contexts stay behind, nobody may
+			// drive them; the consumers named in them keep trying
+			eop.NoForeign = true
+			g.useModule = false
+			g.x.stats.inc("fault_import_without_foreign_module")
+		}
+		if !g.emit(eop) {
 			return false
 		}
 	}
